@@ -50,7 +50,7 @@ All twenty properties are claimed in `MANIFEST.json`; `not_applicable` is empty.
 | C17 | Represent | `…_missing_zero` (4), `…_not_nan` (3), `distance_formula`, `angle_formula`, `innerAngle_formula`, `pointLine_formula` (Heron), `limbPoints_spec`, `limbPoints_in_range`, `mem_trianglePoints`, `output_size_is_row_count`, `pointsRep_row`, `groupEmbeds_entry`; end to end (`poseRepresentation`): `forward_shape`, `forward_point_entry`, `forward_limb_entry`, `forward_triple_entry` | IEEE overflow / `acos(1+ε)`; `atan`, `acos` |
 | C18 | Concurrent | `step_inv`, `reads_isolated(_gen)`, `finishes_after_two_steps` | preemption inside a source line |
 | C19 | OpenPose | `locate_offset`, `openpose_cell`, `openpose_absent`, `openpose_present`, `openpose_short_component`, `loaded_meta`, `frame_id_conforming`, `frame_id_last_group`, `frame_id_documented`, `loopPerson_cell`, `opCell_eq_loop` (the literal loops = the closed form) | JSON parsing |
-| C20 | Collate | `collate_masked`, `collate_ints`, `collate_strings`, `collate_masked_field`, `padData_*` (length, prefix, padding; `padData_full`: an example already of the longest length is returned as it is; `padData_isPrefix`, `padData_mem`: nothing reordered, nothing invented), `field_order`, `collate_dict_order` (fields are matched by key, whatever order an example lists them in) | torch `stack` / `cat` |
+| C20 | Collate | `collate_masked`, `collate_ints`, `collate_strings`, `collate_masked_field`, `padData_*` (length, prefix, padding; `padData_full`: an example already of the longest length is returned as it is, lifted to whole batches by `padMasked_equal_lengths` — the code's "nothing to pad" shortcut is the plain stack and equals the general rule; `padData_isPrefix`, `padData_mem`: nothing reordered, nothing invented), `field_order`, `collate_dict_order` (fields are matched by key, whatever order an example lists them in) | torch `stack` / `cat` |
 
 Helper lemmas live in `Proofs/` (codec algebra `Codec*.lean`, stream simulation `Stream*.lean`, windows `Window*.lean`, nested-array toolkit
 `Rect.lean` (`RectL`, three-way relation `F3`), body invariants `BodyInv/BodyOps/BodyRect.lean`, header shapes `HeaderShape.lean`, the lift
